@@ -56,7 +56,8 @@ const (
 	opReRegNew    = 14 // c pre        the same with a FRESH stream object (raw registry API only; not in the Coq model)
 	opRegClaim    = 15 // c k          Register a control connection whose ClientID is pre-filled with k but which is NOT authenticated
 	opAdAccept    = 16 // c p          the real BaseAdapter.handleConnection is started on a transport (p=1: IsPersistent()) and blocks in its read loop
-	opAdEnd       = 17 // c kind       the transport's pending Read returns EOF (0) / an error (1): read loop ends, deferred cleanupConnection runs
+	opAdEnd       = 17 // c kind       the transport's pending Read returns EOF (0) / an error (1), or (2) the ADAPTER that owns the connection is closed
+	//                                    (listener stopped) while the SessionManager keeps running: read loop ends, deferred cleanupConnection runs
 )
 
 const hour = time.Hour
@@ -281,6 +282,7 @@ type gconn struct {
 	release     chan error
 	done        chan struct{}
 	started     bool
+	ad          *adapter.VerifAdapter // every adapter-driven connection has its own protocol adapter (listener)
 }
 
 func (g *gconn) Read(p []byte) (int, error) {
@@ -745,13 +747,10 @@ func (w *world) apply(o []int) (int, int) {
 			sm.RegisterControlConnection(cc)
 		}
 	case opAdAccept:
-		if w.ad == nil {
-			w.ad = adapter.VerifNewAdapter(w.ctx, sm)
-		}
-		g := &gconn{t: &transport{id: id}, persistent: arg(o, 2) != 0, readStarted: make(chan struct{}), release: make(chan error, 1), done: make(chan struct{})}
+		g := &gconn{ad: adapter.VerifNewAdapter(w.ctx, sm), t: &transport{id: id}, persistent: arg(o, 2) != 0, readStarted: make(chan struct{}), release: make(chan error, 1), done: make(chan struct{})}
 		go func() {
 			defer close(g.done)
-			w.ad.VerifHandleConnection(g)
+			g.ad.VerifHandleConnection(g)
 		}()
 		select {
 		case <-g.readStarted: // accepted, read loop running
@@ -765,7 +764,10 @@ func (w *world) apply(o []int) (int, int) {
 	case opAdEnd:
 		if g := w.gc[c]; g != nil {
 			delete(w.gc, c)
-			if arg(o, 2) == 0 {
+			if arg(o, 2) == 2 {
+				_ = g.ad.Close() // the listener goes away first; the session manager survives
+				g.release <- io.EOF
+			} else if arg(o, 2) == 0 {
 				g.release <- io.EOF
 			} else {
 				g.release <- errors.New("transport: connection reset by peer")
